@@ -55,6 +55,13 @@ pub fn selftest_main(full: bool) -> i32 {
             bad += 1;
         }
     }
+    match crate::collisions::verify() {
+        Ok(n) => println!("selftest: {n} colliding secret / message pairs collide under their fingerprints"),
+        Err(e) => {
+            println!("SELFTEST-FAIL collisions: {e}");
+            bad += 1;
+        }
+    }
     // (b) model MD5 against the md5 crate (second opinion on the model only)
     {
         let mut rng = Rng::new(0x5e1f_7e57);
